@@ -144,6 +144,17 @@ ViaSource(kk, e, R, n) ==
     LET m == IF n = 0 \/ R < n THEN R ELSE n
         g == SrcChunkCall(e, m)
     IN IF g.rc < 0 THEN Ret(g.rc, g.e) ELSE PutChunk(kk, g.e, Tokens(e.pos, g.rc))
+(* the same with an octet-style source: exactly m octets are collected (interruptions retried) before they go to the sink.  Only used
+   with more data in the source than is asked for (what an octet-style source that ends inside such a step loses is not specified). *)
+ViaSourceO(kk, e, R, n) ==
+    LET m == IF n = 0 \/ R < n THEN R ELSE n
+        g == GetChunk(1, e, m, <<>>)
+    IN IF g.rc < 0 THEN Ret(g.rc, g.e) ELSE PutChunk(kk, g.e, g.got)
+RECURSIVE NExtO(_, _, _, _, _)
+NExtO(kk, e, R, n, rest) ==
+    IF rest = 0 THEN Ret(n, e)
+    ELSE LET r == ViaSourceO(kk, e, R, rest)
+         IN IF r.rc = ENOMEM THEN NExtO(kk, r.e, R, n, rest) ELSE IF r.rc < 0 THEN r ELSE NExtO(kk, r.e, R, n, rest - r.rc)
 RECURSIVE NExt(_, _, _, _, _)
 NExt(kk, e, R, n, rest) ==
     IF rest = 0 THEN Ret(n, e)
@@ -180,8 +191,8 @@ Result(api, sk, kk, n, L, R, ss, ks) ==
          \* (R > 10 encodes a designated region of R - 10 octets that starts 2 octets into the auxiliary block)
          \* the same four calls when the (chunk-style) source offers a scratch buffer of R octets: "sstx", "astx", "nstx", "dstx"
          [] api = "sstx" -> PlumbObs(ViaSource(kk, e, R, 0))
-         [] api = "astx" -> PlumbObs(ViaSource(kk, e, R, n))
-         [] api = "nstx" -> PlumbObs(NExt(kk, e, R, n, n))
+         [] api = "astx" -> PlumbObs(IF sk = 1 THEN ViaSourceO(kk, e, R, n) ELSE ViaSource(kk, e, R, n))
+         [] api = "nstx" -> PlumbObs(IF sk = 1 THEN NExtO(kk, e, R, n, n) ELSE NExt(kk, e, R, n, n))
          [] api = "dstx" -> PlumbObs(DrainExt(kk, e, R))
          [] api = "someaux" -> PlumbObs(SomeAux(sk, kk, e, R % 10))
          [] api = "amaux" -> PlumbObs(SomeAux(sk, kk, e, MinOf(R % 10, n)))
@@ -258,7 +269,8 @@ Next == /\ phase[1] = "b" /\ ev' = Boot
                        ss \in Scripts(PBeh, MaxPScript), ks \in Scripts(PBeh, MaxKScript) :
                        /\ (api \in {"cbc", "ncbc", "dcbc", "ssts", "asts", "nsts", "dsts"} => R = 1)
                        /\ (api \notin {"someaux", "amaux"} => R < 10)
-                       /\ (api \in ExtApis => k = 2)                                       \* chunk-style sources only
+                       /\ (api \in {"sstx", "dstx"} => k = 2)                               \* "some" and "drain": chunk-style sources only
+                       /\ (api \in {"astx", "nstx"} /\ k = 1 => L = 4 /\ n <= 2 /\ (\A i \in 1..Len(ss) : ss[i] # EIO))   \* octet-style: plenty of data
                        /\ (api \in {"cbc", "dcbc", "someaux", "daux", "ssts", "dsts", "sstx", "dstx"} => n = 1)
                        /\ phase' = <<"c", api, k, kk, n, L, R, ss, ks>>
 Spec == Init /\ [][Next]_<<vars, ev>>
